@@ -247,7 +247,18 @@ impl DBM {
     /// reference to them.
     pub fn remove_tower_record(&self, tower_id: TowerId) -> Result<(), Error> {
         let query = "DELETE FROM towers WHERE tower_id=?";
-        self.remove_data(query, params![tower_id.to_vec()])
+        self.remove_data(query, params![tower_id.to_vec()])?;
+
+        // References to appointments (pending and invalid) are deleted on cascade, but the appointments themselves are not.
+        // Delete the ones that were only referenced by this tower.
+        self.connection
+            .execute(
+                "DELETE FROM appointments WHERE locator NOT IN (SELECT locator FROM pending_appointments)
+                    AND locator NOT IN (SELECT locator FROM invalid_appointments)",
+                [],
+            )
+            .map(|_| ())
+            .map_err(Error::Unknown)
     }
 
     /// Loads all tower records from the database.
